@@ -195,6 +195,14 @@ def gen_c01(rng, idx, tier, faults):
                 heap[yo] = gen_y(rng, xs["shape"][0])
         seq = [{"op": "NEW", "obj": name, "cls": cls, "params": p}]
         mk_env = (lambda: env_fault(rng, fam, p)) if faults else (lambda: quiet_env(rng, fam))
+        def crash_env():
+            e = dict(mk_env() or {})
+            e["interrupt"] = {"exc": rng.choice(["KeyboardInterrupt", "MemoryError"]), "at": rng.randint(1, 260)}
+            return e
+
+        if faults and rng.random() < 0.1:
+            # a fit that crashes at an arbitrary line, then the ordinary cold fit
+            seq.append({"op": "FIT", "obj": name, "X": xo, "y": yo, "warm": False, "env": crash_env()})
         seq.append({"op": "FIT", "obj": name, "X": xn, "y": yn, "warm": False, "env": mk_env()})
         curX, curY = xn, yn
         cur = N
@@ -213,6 +221,9 @@ def gen_c01(rng, idx, tier, faults):
                     cur = None
                 if rng.random() < 0.5:
                     curX, curY = (xo, yo) if curX == xn else (xn, yn)
+                if faults and rng.random() < 0.3:
+                    # the refit crashes at an arbitrary line and is repeated
+                    seq.append({"op": "FIT", "obj": name, "X": curX, "y": curY, "warm": False, "env": crash_env()})
                 seq.append({"op": "FIT", "obj": name, "X": curX, "y": curY, "warm": False, "env": mk_env()})
                 if cur is None:
                     from .refmodels import resolve_n_to_select
@@ -228,7 +239,12 @@ def gen_c01(rng, idx, tier, faults):
             if rng.random() < 0.3:
                 seq.append(gen_read(rng, name, cls))
             seq.append({"op": "SET", "obj": name, "params": {"n_to_select": n_form(rng, new, n_from)}})
-            seq.append({"op": "FIT", "obj": name, "X": curX, "y": curY, "warm": True, "env": mk_env()})
+            if faults and rng.random() < 0.06:
+                # the continuation crashes at an arbitrary line; the caller falls back to a cold fit
+                seq.append({"op": "FIT", "obj": name, "X": curX, "y": curY, "warm": True, "env": crash_env()})
+                seq.append({"op": "FIT", "obj": name, "X": curX, "y": curY, "warm": False, "env": mk_env()})
+            else:
+                seq.append({"op": "FIT", "obj": name, "X": curX, "y": curY, "warm": True, "env": mk_env()})
             cur = new
         if rng.random() < 0.3:
             seq.append(gen_read(rng, name, cls))
@@ -295,9 +311,17 @@ def gen_c06(rng, idx, tier, faults):
     reuse = refit and len(lanes) <= 2 and rng.random() < 0.35 and xs.get("storage", "C") not in ("readonly", "memmap")
     if reuse:
         lanes = lanes[:1]
+    crash = None
+    if faults and not all128 and rng.random() < 0.12:
+        crash = {"where": rng.choice(["start", "before_refit"]) if refit else "start",
+                 "exc": rng.choice(["KeyboardInterrupt", "MemoryError"]), "at": rng.randint(1, 400), "warm": rng.random() < 0.3}
     for li, clk in enumerate(lanes):
         name = f"e{li}"
         ops.append({"op": "NEW", "obj": name, "cls": "sample.VoronoiFPS", "params": dict(p), "lane": 0})
+        if crash and crash["where"] == "start":
+            # a fit that crashes at an arbitrary line; the history proper starts with a cold fit
+            ops.append({"op": "FIT", "obj": name, "X": "X1" if refit else "X0", "y": None, "warm": False,
+                        "env": {"clock": clk, "interrupt": {"exc": crash["exc"], "at": crash["at"]}}})
         for si, n in enumerate(sched):
             if si > 0:
                 ops.append({"op": "SET", "obj": name, "params": {"n_to_select": forms[si]}})
@@ -313,6 +337,9 @@ def gen_c06(rng, idx, tier, faults):
             refit_X_eff = "X0"
         else:
             refit_X_eff = refit_X
+        if refit and crash and crash["where"] == "before_refit":
+            ops.append({"op": "FIT", "obj": name, "X": refit_X_eff, "y": None if refit_X_eff == "X1" else yn, "warm": crash["warm"],
+                        "env": {"clock": clk, "interrupt": {"exc": crash["exc"], "at": crash["at"]}}})
         if refit:
             # cold refit of the same object: other data of equal size and/or another start
             if refit_init is not None:
